@@ -19,6 +19,8 @@ package tracing
 import (
 	"context"
 	"sync"
+
+	"github.com/olive-io/bpmn/v2/pkg/verifhook"
 )
 
 type subscription struct {
@@ -85,6 +87,7 @@ func (t *tracer) run(ctx context.Context) {
 		case trace := <-t.traces:
 			for _, subscriber := range t.subscribers {
 				subscriber <- trace
+				verifhook.Point("tracer.bcast")
 			}
 		case <-ctx.Done():
 			// Start a termination waiting routine (only once)
@@ -113,6 +116,7 @@ func (t *tracer) Subscribe() chan ITrace {
 func (t *tracer) SubscribeChannel(channel chan ITrace) chan ITrace {
 	okCh := make(chan struct{}, 1)
 	sub := subscription{channel: channel, ok: okCh}
+	verifhook.Point("tracer.sub")
 	t.subscription <- sub
 	<-okCh
 	return channel
@@ -121,6 +125,7 @@ func (t *tracer) SubscribeChannel(channel chan ITrace) chan ITrace {
 func (t *tracer) Unsubscribe(channel chan ITrace) {
 	okChan := make(chan struct{})
 	unsub := unSubscription{channel: channel, ok: okChan}
+	verifhook.Point("tracer.unsub")
 loop:
 	for {
 		select {
@@ -138,6 +143,7 @@ loop:
 }
 
 func (t *tracer) Send(trace ITrace) {
+	verifhook.Point("tracer.send")
 	t.traces <- trace
 }
 
